@@ -63,7 +63,7 @@ COMPONENTS = {
     "stub": ["model registry: dict name -> predicate descriptor"],
 }
 ASSUMPTIONS = [
-    "registered predicates return strict bool and never raise (closed family)",
+    "registered predicates are total and never raise (closed family); their false answer is False or, for 8%, None",
     "elements carry no keyword other than `format` (plus the structural wrapper), as in the property's 'on account of a format'",
     "for sec=60 only real leap-second instants (and their offset-shifted forms) are generated as valid RFC 3339",
     "sampling, not enumeration",
@@ -108,6 +108,8 @@ def valid_pred(pred):
         return False
     kind = pred.get("t")
     if "falsy" in pred and pred["falsy"] is not True:
+        return False
+    if "none_for_false" in pred and pred["none_for_false"] is not True:
         return False
     if kind == "const":
         return isinstance(pred.get("v"), bool)
@@ -157,6 +159,12 @@ def make_pred(pred):
     pred = copy.deepcopy(pred)
     if pred.get("falsy"):
         return _FalsyChecker(pred)
+    if pred.get("none_for_false"):
+        # the `lambda v: re.fullmatch(p, v)` idiom: truthy object or None
+        def match_like(value):
+            return True if evaluate(pred, value) else None
+
+        return match_like
 
     def checker(value):
         return evaluate(pred, value)
@@ -168,6 +176,8 @@ def gen_pred(rng):
     pred = _gen_pred(rng)
     if rng.random() < 0.08:
         pred["falsy"] = True  # registered through a callable object with bool() == False
+    elif rng.random() < 0.08:
+        pred["none_for_false"] = True  # answers None instead of False
     return pred
 
 
@@ -360,6 +370,8 @@ def gen_case(rng):
             vop = {"op": "validate", "eid": eid, "value": value}
             if rng.random() < p_werror:
                 vop["wmode"] = "error"
+            if isinstance(value, str) and rng.random() < 0.06:
+                vop["strsub"] = True
             ops.append(vop)
             if isinstance(value, str):
                 validated.append((eid, value))
@@ -415,6 +427,16 @@ class _DirectValidator:
         for validator in self.validators:
             validator(value, prop)
         return value
+
+
+class MaskedStr(str):
+    """A string whose str() is not its content (like a (str, Enum) member or
+    a secret that prints masked): a checker must judge the content."""
+
+    def __str__(self):
+        return "***"
+
+    __repr__ = __str__
 
 
 def wrap(kind, value):
@@ -502,7 +524,11 @@ def _exec(case, log, stats, saved):
         # validate
         ekind, name, element = elements[op["eid"]]
         inner = op["value"]
-        value = wrap(ekind, copy.deepcopy(inner))
+        payload = copy.deepcopy(inner)
+        if op.get("strsub") and isinstance(payload, str):
+            payload = MaskedStr(payload)
+            stats.inc("str_subclass_values")
+        value = wrap(ekind, payload)
         if op.get("wmode") == "error":
             # the caller runs with warnings escalated to errors (-W error,
             # pytest filterwarnings=error): the "warning" of an unregistered
